@@ -8,7 +8,7 @@ import core
 import gen
 
 PID = 'C20'
-MODULES = ['FFVerif.Proofs.C20', 'FFVerif.Proofs.C20Gram', 'FFVerif.Proofs.C20Grad', 'FFVerif.Proofs.C20Align', 'FFVerif.Proofs.C20GramModel']
+MODULES = ['FFVerif.Proofs.C20', 'FFVerif.Proofs.C20Gram', 'FFVerif.Proofs.C20Grad', 'FFVerif.Proofs.C20Align', 'FFVerif.Proofs.C20GramModel', 'FFVerif.Proofs.C20Deriv']
 
 
 def fail(res, clause, case, out):
@@ -301,6 +301,33 @@ def explore(res, rng, n):
             fail(res, 'J A != B', case, None)
 
 
+def deriv_model_stream(res, rng, k):
+    """the executable Lean model of `derivative` with the regenerated weight tables (Model/Deriv.lean) against the implementation, on
+    polynomials, at decimal and dyadic steps"""
+    core.import_impl()
+    from ffpack import utils
+    from formmodel import fcsv, unbits
+    reqs, meta = [], []
+    for _ in range(k):
+        n = rng.choice([1, 2])
+        m = rng.choice([3, 5, 7, 9])
+        deg = rng.randrange(0, m + 2)            # also beyond the exactness range: the model is the same stencil, not the derivative
+        c = [float(rng.randint(-9, 9)) for _ in range(deg + 1)]
+        x0 = rng.choice([0.0, 1.0, -2.5, 0.375, 3.0, 10.0])
+        dx = rng.choice([1.0, 0.5, 0.125, 1e-3, 0.01, 0.1])
+        res.evaluations += 1
+        res.stat('deriv_model_stencil_%d_%d' % (n, m))
+        got = float(utils.derivative(lambda x: poly_eval(c, x), x0, dx=dx, n=n, order=m))
+        reqs.append('deriv %d %d %s %s %s' % (n, m, fcsv(c), fcsv([x0]), fcsv([dx])))
+        scale = max(1.0, sum(abs(ci) * (abs(x0) + m * dx) ** j for j, ci in enumerate(c))) / dx ** n
+        meta.append(({'coeffs': c, 'x0': x0, 'dx': dx, 'n': n, 'order': m}, got, scale))
+    for (case, got, scale), a in zip(meta, core.driver_batch(reqs)):
+        res.traces += 1
+        mv = unbits(a) if a != 'bad-request' else []
+        if len(mv) != 1 or not (abs(mv[0] - got) <= 1e-12 * scale * 1e3):
+            res.disagreements.append({'what': 'derivative vs model (regenerated table, stencil sum, division by dx^n)', 'input': case, 'impl': got, 'model': mv})
+
+
 def gram_model_stream(res, rng, k):
     """the executable Lean model of gramSchmidOrth (Model/Gram.lean: coincidence test, column re-arrangement, the two loops) against
     the implementation, column by column, on well-conditioned integer matrices: default alignment, a generic alignment vector, an exact
@@ -363,6 +390,7 @@ def run(tier, seed):
     n = 300 if tier == 'quick' else 20000
     explore(res, random.Random(seed), n)
     gram_model_stream(res, random.Random(seed + 5), 150 if tier == 'quick' else 5000)
+    deriv_model_stream(res, random.Random(seed + 6), 150 if tier == 'quick' else 5000)
     if (res.proof_problems or res.disagreements) and not res.failures:
         explore(res, random.Random(seed + 7919), 4 * n)
     res.disagreements_checked = res.traces
